@@ -605,3 +605,10 @@ package dag
 //@   pure
 //@   loop 1 invariant forall k int :: 0 <= k && k < $i ==> !id.Equals(pal[k])
 //@   ensures [listed-means-equal-to-an-entry] result <==> (exists k int :: 0 <= k && k < len(pal) && id.Equals(pal[k]))
+
+// ---- C14: an event that used up its visible budget stays VISIBLE: every event read from the shelf whose recorded attempts
+// reached the diagnostics threshold is reported as failed - whatever its last error was ----
+//@ func (*notifier).GetFailedEvents$1$1
+//@   prop C14
+//@   ensures [every-stored-event-over-the-threshold-is-reported] data != nil && event.Retries >= retriesFailedThreshold ==> did(call append #1) && len(arg(call append #1, 1)) == 1 && same(arg(call append #1, 1)[0], event)
+//@   ensures [reading-never-fails-the-listing] isNilIface(result)
